@@ -17,7 +17,7 @@ import (
 )
 
 var c06Kinds = []string{"0", "1", "q-1", "q", "q+1", "2q", "kq", "N", "N+1", "N^2", "2^256", "2^2048", "huge", "flip", "p", "q^3+1"}
-var c06ListKinds = []string{"empty-list", "keep-one", "append"}
+var c06ListKinds = []string{"empty-list", "keep-one", "append", "dln-repartition"}
 
 func runMatrixC06(t *testing.T, protos []string) {
 	r := ev.New(t, "C06")
